@@ -129,10 +129,21 @@ func check(spec *ukit.Spec, tier string, res *ux.Result, only *replay) {
 		}
 	}
 	for vi, valid := range valids {
+		// single-fault oracle: the uncorrupted input must be accepted, otherwise the error may rightly name its own
+		// problem (whether a value the generator believes valid is accepted is what C02 / C03 decide)
+		var baseErr error
+		if pan, _, _ := ukit.Call(func() { _, baseErr = sch.Unserialize(ukit.DeepCopy(valid)) }); pan || baseErr != nil {
+			res.Count("base_input_not_accepted", 1)
+			continue
+		}
 		for ci, c := range ukit.Corruptions(spec, valid) {
 			idx := vi*100000 + ci
 			if only != nil && (only.Op != "Unserialize" || only.Idx != idx) {
 				continue
+			}
+			if ux.Stop() {
+				res.Capped = true
+				break
 			}
 			ux.Progress(idx)
 			pan, val, stack := ukit.Call(func() {
